@@ -412,8 +412,7 @@ def build_bbnoh(cls, kw):
     else:
         ic.pop("symmetry", None)
         s = cls(eos, ic)
-    # the solver reads the pre-shock state from the attributes rho0/u0/p0 (documented parameters)
-    s.rho0, s.u0, s.p0 = ic["density"], ic["velocity"], ic["pressure"]
+    # (the state ahead of the shock is NOT set by hand here: the solver must return the initial conditions it was given)
     # physically reasonable starting guess (C16's scalar reference model), 5 % off
     from .props.c16 import ref_root
     root = ref_root(eos, dict(kw["ic"]))
